@@ -91,15 +91,15 @@ func genMode(t *rapid.T) int {
 
 func genNoise(t *rapid.T, l Layout) Step {
 	n := l.n()
-	switch k := rapid.IntRange(0, 13).Draw(t, "kind"); {
+	switch k := rapid.IntRange(0, 14).Draw(t, "kind"); {
 	case k < 4:
 		return Step{Kind: kWrite, Index: genIndexCode(t, n), Mode: genMode(t), Arg: rapid.IntRange(0, 4096).Draw(t, "arg")}
 	case k < 8:
 		return Step{Kind: kHold, Index: genIndexCode(t, n), Mode: genMode(t), Arg: rapid.IntRange(0, 4096).Draw(t, "arg"),
 			Pre: rapid.IntRange(0, l.PieceLen).Draw(t, "pre")}
-	case k < 11:
-		return Step{Kind: kRelease, Which: rapid.IntRange(0, 3).Draw(t, "which")}
 	case k < 12:
+		return Step{Kind: kRelease, Which: rapid.IntRange(0, 3).Draw(t, "which")}
+	case k < 14:
 		return Step{Kind: kReopen}
 	default:
 		return Step{Kind: kProbe, Index: genIndexCode(t, n)}
